@@ -59,8 +59,8 @@ func (c capTE) ValidateTokenExchangeRequest(ctx context.Context, r op.TokenExcha
 	s.mu.Lock()
 	defer s.mu.Unlock()
 	p := s.Policy
-	if p.Veto {
-		return oidc.ErrAccessDenied().WithDescription("exchange not permitted by policy")
+	if p.Veto && p.VetoAt == "" {
+		return s.vetoLocked("ValidateTokenExchangeRequest")
 	}
 	// liveness of the presented tokens is the storage's answer, with the ids the library hands over
 	check := func(tt oidc.TokenType, idOrToken, subject string) error {
@@ -108,7 +108,23 @@ func (c capTE) CreateTokenExchangeRequest(ctx context.Context, r op.TokenExchang
 	if f, _ := s.enter(ctx, "CreateTokenExchangeRequest", r.GetSubject(), r.GetRequestedTokenType(), r.GetScopes(), r.GetExchangeActor()); f != "" {
 		return s.faultErr(ctx, f)
 	}
+	s.mu.Lock()
+	defer s.mu.Unlock()
+	if s.Policy.Veto && s.Policy.VetoAt == "create" {
+		return s.vetoLocked("CreateTokenExchangeRequest")
+	}
 	return nil
+}
+
+// vetoLocked records in the journal that the policy refused the exchange at this callback and returns the refusal.
+func (s *Store) vetoLocked(method string) error {
+	for i := len(s.Journal) - 1; i >= 0; i-- {
+		if s.Journal[i].Method == method {
+			s.Journal[i].Err = "policy-veto"
+			break
+		}
+	}
+	return oidc.ErrAccessDenied().WithDescription("exchange not permitted by policy")
 }
 
 func (c capTE) GetPrivateClaimsFromTokenExchangeRequest(ctx context.Context, r op.TokenExchangeRequest) (map[string]any, error) {
@@ -118,6 +134,9 @@ func (c capTE) GetPrivateClaimsFromTokenExchangeRequest(ctx context.Context, r o
 	}
 	s.mu.Lock()
 	defer s.mu.Unlock()
+	if s.Policy.Veto && s.Policy.VetoAt == "claims" {
+		return nil, s.vetoLocked("GetPrivateClaimsFromTokenExchangeRequest")
+	}
 	out := map[string]any{}
 	for k, v := range s.CustomClaims {
 		out[k] = v
@@ -132,6 +151,9 @@ func (c capTE) SetUserinfoFromTokenExchangeRequest(ctx context.Context, info *oi
 	}
 	s.mu.Lock()
 	defer s.mu.Unlock()
+	if s.Policy.Veto && s.Policy.VetoAt == "userinfo" {
+		return s.vetoLocked("SetUserinfoFromTokenExchangeRequest")
+	}
 	if s.Users[r.GetSubject()] == nil {
 		info.Subject = r.GetSubject()
 		return nil
